@@ -62,7 +62,7 @@ from typing import NamedTuple
 
 from solvor.types import ProgressCallback, Result, Status
 from solvor.utils.helpers import report_progress
-from solvor.utils.pricing import knapsack_pricing, simplex_phase
+from solvor.utils.pricing import drive_out_artificials, knapsack_pricing, simplex_phase
 from solvor.utils.validate import check_non_negative, check_positive, check_sequence_lengths
 
 __all__ = ["solve_bp"]
@@ -427,6 +427,9 @@ def _solve_bounded_master_lp(columns, demands, col_bounds, eps):
 
     if tab[-1][-1] < -eps:
         return [0.0] * n, [0.0] * m, float("inf")
+
+    # A zero-valued artificial still basic here could turn positive in phase 2
+    drive_out_artificials(tab, basis, n + n_surplus + n_slack + n_surplus_bounds, n_rows, eps)
 
     # Phase 2: minimize sum of x
     for j in range(n_vars + 1):
